@@ -1,7 +1,7 @@
 From Coq Require Import ZArith QArith String Bool List.
 From QS Require Import theories.Val theories.Num theories.Position theories.Portfolio theories.Fees
   theories.Broker theories.Clock theories.Schedule theories.Sizer theories.PCM theories.Signals
-  theories.Backtest theories.Spec theories.EntryBroker theories.EntryPcm.
+  theories.Backtest theories.Spec theories.AllocTable theories.EntryBroker theories.EntryPcm.
 Import ListNotations.
 Open Scope string_scope.
 
@@ -104,5 +104,15 @@ Definition entry_spec_rows (v : val) : val :=
                                   vopt (fun e => VL [VZ (fst e); vq (snd e)]) (d_equity d)]) days;
               VZ (Z.of_nat (length rest))]
       end
+  | _ => bad_input
+  end.
+
+(** "alloc_table": [rows = [[t; weights]; ...]; equity days; burn-in?] -> [columns; [[day; row?]; ...]] *)
+Definition entry_alloc_table (v : val) : val :=
+  match v with
+  | VL [rows; eq; burn] =>
+      do rows <- dlist (dpair dZ dec_weights) rows; do eq <- dlist dZ eq; do burn <- dopt dZ burn;
+      VL [vlist VS (alloc_columns rows);
+          vlist (fun r => VL [VZ (fst r); vopt enc_weights (snd r)]) (alloc_table rows eq burn)]
   | _ => bad_input
   end.
